@@ -95,6 +95,7 @@ struct Params
     int cscale = 1;  // objects per count index
     int arena1 = 0;  // arena of slot 1 / of elements constructed "with another allocator"
     std::vector<int> fixed_choices{0, 1, 3};
+    int fault_ops = 0;  // > 0: the alphabet contains fail(1..fault_ops) in front of the strong-guarantee operations
     bool on(const char* p) const { return active.count(p) != 0; }
 };
 
@@ -148,6 +149,7 @@ struct Ctx
     bool pre_empty = false, fill_phase = false, seen_pair_op = false, seen_rs_grow = false;
     std::string op_tag, obs;
     bool free_step = false;
+    bool fault_seen = false;
 };
 
 template <class LS, class TR>
@@ -196,11 +198,14 @@ struct Engine
     bool seen_pair_op = false;    // history contains copy/move/swap
     bool seen_rs_grow = false;    // history contains a reserve beyond capacity
     bool faulted = false;
+    int pending_fail = 0;     // fail(k) was the previous operation: armed for the next one
+    bool fault_seen = false;  // some operation of this history ended with an injected allocation failure
+    bool last_failed = false; // the last operation did
     bool free_step = false;       // the last op was a set-up step that does not count against the depth bound
     std::string obs;              // observation digest source of the last inspect
     std::string op_tag;           // context of the last op that becomes part of a violation's discriminator
 
-    Ctx ctx() const { return Ctx{last, pre_empty, fill_phase, seen_pair_op, seen_rs_grow, op_tag, obs, free_step}; }
+    Ctx ctx() const { return Ctx{last, pre_empty, fill_phase, seen_pair_op, seen_rs_grow, op_tag, obs, free_step, fault_seen}; }
 
     // after an injected allocation failure propagated out of the last operation: the operands must still be
     // valid; operands whose contents are unspecified afterwards are only checked for readability
@@ -421,7 +426,22 @@ struct Engine
         last = o;
         pre_empty = false;
         free_step = (prm.mode == "elem" || prm.mode == "proxy") && (o.k == O_EB || o.k == O_NEW || o.k == O_DEF);
+        last_failed = false;
+        if (o.k == O_FAIL)
+        {
+            pending_fail = o.a[0];
+            free_step = true;
+            op_tag.clear();
+            return true;
+        }
         compute_tag(o);
+        const int arm = pending_fail;
+        pending_fail = 0;
+        if (arm)
+        {
+            L().fail_at = arm;
+            L().faults_thrown = 0;
+        }
         try
         {
             dispatch(o);
@@ -430,7 +450,22 @@ struct Engine
         {
             L().in_lib = false;
             faulted = true;
+            if (arm)
+            {
+                L().fail_at = 0;
+                fault_seen = true;
+                last_failed = true;
+            }
             return false;
+        }
+        if (arm)
+        {
+            L().fail_at = 0;
+            if (L().faults_thrown > 0)
+            {
+                fault_seen = true;
+                report("C17", "faults", "exception-swallowed", "an allocation failure did not propagate to the caller");
+            }
         }
         return true;
     }
@@ -1111,7 +1146,14 @@ struct Engine
                         s.obj[{t, m[t].el[i].id, static_cast<int>(k), static_cast<int>(p)}] = ex[k].addr + p * LS::sizes[k];
             }
         }
-        if (with_canon) s.canon = canon(false);
+        if (with_canon)
+        {
+            // without the armed failure: compared with the canonical form after the (failed) operation
+            const int pf = pending_fail;
+            pending_fail = 0;
+            s.canon = canon(false);
+            pending_fail = pf;
+        }
         return s;
     }
 
@@ -1174,6 +1216,14 @@ struct Engine
     void transition_monitors(const Snap& pre, const Op& o)
     {
         if (prm.on("C11")) reassigned_iterator_monitors();
+        if (last_failed && (o.k == O_RS || o.k == O_CC) && !pre.canon.empty())
+        {
+            // C17: reserve and copy construction leave the source completely unchanged when an allocation fails
+            // (model, ledger blocks and their bytes, registry - the same canonical form as before)
+            if (canon(false) != pre.canon)
+                report("C17", "faults", std::string("state-changed-by-failed-") + OP_NAMES[o.k],
+                       "%s threw std::bad_alloc and left the vector / the allocator's blocks in a different state", OP_NAMES[o.k]);
+        }
         const Snap post = snapshot(false);
         const unsigned allocs = L().allocs_this_op;
         auto same_objects = [&](int ts, int tt, std::size_t upto_index, const char* what)
@@ -1980,6 +2030,62 @@ struct Engine
                            return touch(typename Vec::const_reference{ce});
                        });
 #endif
+#if HAVE_ELEM
+            if (n > 0)
+            {
+                // a shared ELEMENT: const operations on it (reading, copying it, assigning it to a private element,
+                // comparing it) and construction of elements from a const lvalue of the MUTABLE reference type
+                L().in_lib = true;
+                El se(cs[0]);
+                L().in_lib = false;
+                std::vector<Region> sh3 = live_block_regions();  // the vector's and the shared element's blocks
+                sh3.push_back(Region{reinterpret_cast<uintptr_t>(&S), reinterpret_cast<uintptr_t>(&S) + sizeof(Vec)});
+                sh3.push_back(Region{reinterpret_cast<uintptr_t>(&se), reinterpret_cast<uintptr_t>(&se) + sizeof(El)});
+                const El& ce = se;
+                const std::string before_e = canon(false, false);
+                unsigned char elem_before[sizeof(El)];
+                std::memcpy(elem_before, static_cast<const void*>(&se), sizeof(El));
+                fp_run("element.read", sh3, false, [&] { return touch(typename Vec::const_reference{ce}); });
+                fp_run("element.copy-construct", sh3, false,
+                       [&]
+                       {
+                           El c(ce);
+                           return touch(typename Vec::const_reference{std::as_const(c)});
+                       });
+                fp_run("element.copy-construct-with-allocator", sh3, false,
+                       [&]
+                       {
+                           El c(ce, ce.get_allocator());
+                           return touch(typename Vec::const_reference{std::as_const(c)});
+                       });
+                for (std::size_t i = 0; i < n; ++i)
+                    fp_run("element.copy-assign-from-shared", sh3, false,
+                           [&]
+                           {
+                               El priv(cs[i]);  // private target, same or different sizes
+                               priv = ce;
+                               return touch(typename Vec::const_reference{std::as_const(priv)});
+                           });
+#if HAVE_CMP
+                fp_run("element.compare", sh3, false,
+                       [&] { return static_cast<long>((ce == ce) + (ce != ce) + (ce < ce) + (ce == cs[0]) + (cs[0] == ce) + (ce < cs[0])); });
+#endif
+                fp_run("element-from-const-lvalue-of-mutable-reference", sh3, false,
+                       [&]
+                       {
+                           const typename Vec::reference r = S[0];  // const-qualified mutable reference: still a read-only use
+                           El c(r);
+                           const typename Vec::reference rs{se};
+                           El c2(rs);
+                           return touch(typename Vec::const_reference{std::as_const(c)}) + touch(typename Vec::const_reference{std::as_const(c2)});
+                       });
+                if (canon(false, false) != before_e || std::memcmp(elem_before, static_cast<const void*>(&se), sizeof(El)) != 0)
+                    report("C19", "footprint", "const-ops-change-state:element",
+                           "const operations on a shared element changed the element object, its block or the vector");
+                L().in_lib = true;
+            }
+            L().in_lib = false;
+#endif
             // distinct vectors copied from one another: mutators of a copy never touch the original (or a
             // further copy), whether reading or writing
             auto with_copies = [&](const char* name, auto&& mut)
@@ -2096,6 +2202,7 @@ struct Engine
             where(reinterpret_cast<uintptr_t>(cv.data_begin()));
             where(reinterpret_cast<uintptr_t>(cv.data_end()));
         }
+        h.u64(static_cast<uint64_t>(pending_fail));
         for (int e = 0; e < 3; ++e)
         {
             h.u64(xm[e].present);
@@ -2275,7 +2382,29 @@ struct Engine
         return out;
     }
 
+    // the alphabet of the mode, plus the environment's move: fail(k) arms the k-th allocation of the next operation,
+    // which then has to be one that promises to leave everything unchanged when it fails
     std::vector<Op> enabled() const
+    {
+        std::vector<Op> out = enabled_base();
+        if (prm.fault_ops <= 0) return out;
+        auto strong = [](const Op& o)
+        { return o.k == O_RS || o.k == O_CC || o.k == O_NEW || o.k == O_XCC || (o.k == O_XR && o.a[3] != 2); };
+        if (pending_fail)
+        {
+            std::vector<Op> f;
+            for (auto& o : out)
+                if (strong(o)) f.push_back(o);
+            return f;
+        }
+        bool any = false;
+        for (auto& o : out) any = any || strong(o);
+        if (any)
+            for (int k = 1; k <= prm.fault_ops; ++k) out.push_back(mk(O_FAIL, k));
+        return out;
+    }
+
+    std::vector<Op> enabled_base() const
     {
         std::vector<Op> out;
         const std::string& mode = prm.mode;
